@@ -37,6 +37,9 @@ def handle : List Sexp → Option String
       some (match GenK.oidEncode a with
         | .ok (l, b1, b2) => s!"ok{ints l} | {b1} {b2}"
         | .error e => "err " ++ errName e)
+  | .atom "KTIME" :: .atom mn :: .atom mx :: args => do
+      let a ← intArgs args
+      some (out (GenK.timeCanon (← mx.toInt?) (← mn.toInt?) a))
   | .atom "KOIDDEC" :: args => do
       let a ← intArgs args
       some (out (GenK.oidDecode a))
